@@ -38,6 +38,7 @@ def c15_case(draw):
         base = {'kind': 'det', 'det': c}
     else:
         c = draw(romodel.ro_case(families=['box', 'l1', 'linf', 'poly', 'eq', 'l2', 'budget'], max_cons=3))
+        c['obj'].pop('extra', None)
         nl, na, nc = 0, 0, len(c['cons'])
         base = {'kind': 'ro', 'ro': c}
     base['k1'] = draw(knobs(nl, na, nc))
